@@ -1,6 +1,7 @@
 package main
 
 import (
+	"bytes"
 	"crypto"
 	"crypto/aes"
 	"crypto/ecdsa"
@@ -492,25 +493,26 @@ func (g *gen) decSymCase() *Case {
 		ct, tag = g.r.Bytes(n), g.r.Bytes(16)
 		c.Path = "unsupported-alg"
 	}
+	origCT, origTag, origNonce, origAD, origKey := ct, tag, nonce, ad, key
 	switch k := g.r.Intn(16); k {
 	case 0:
 		ct = flip(ct, g.r)
-		c.Auth, c.Path = len(ct) == 0, "tamper-ciphertext"
+		c.Path = "tamper-ciphertext"
 	case 1:
 		tag = flip(tag, g.r)
-		c.Auth, c.Path = len(tag) == 0, "tamper-tag"
+		c.Path = "tamper-tag"
 	case 2:
-		ad = append(ad, 7)
-		c.Auth, c.Path = false, "tamper-ad"
+		ad = append(append([]byte(nil), ad...), 7)
+		c.Path = "tamper-ad"
 	case 3:
 		tag = g.r.Bytes([]int{0, 1, 12, 15, 17, 24, 32}[g.r.Intn(7)])
-		c.Auth, c.Path = false, "tag-size?"
+		c.Path = "tag-size?"
 	case 4:
 		nonce = g.r.Bytes([]int{0, 8, 12, 15, 16, 17, 24}[g.r.Intn(7)])
-		c.Auth, c.Path = false, "nonce-size?"
+		c.Path = "nonce-size?"
 	case 5:
 		key = g.r.Bytes([]int{1, 15, 16, 24, 31, 32, 33, 48, 64}[g.r.Intn(9)])
-		c.Auth, c.Path = false, "key-size?"
+		c.Path = "key-size?"
 	case 6:
 		c.KeyKind = []string{"rsaPriv", "rsaPub", "ecPub", "edPriv"}[g.r.Intn(4)]
 		c.Path = "key-kind"
@@ -520,7 +522,7 @@ func (g *gen) decSymCase() *Case {
 		} else {
 			ct = g.r.Bytes(3)
 		}
-		c.Auth, c.Path = false, "ciphertext-length"
+		c.Path = "ciphertext-length"
 	case 8:
 		if fam == "aescbc" && len(key) == ks && len(nonce) == 16 { // genuine CBC of a body whose padding is wrong
 			raw := pkcs7(pt, 16)
@@ -538,7 +540,13 @@ func (g *gen) decSymCase() *Case {
 			c.Path = "authentic-bad-padding"
 		}
 	}
-	// what the harness itself knows about the bytes CBC decryption yields / the tag's authenticity
+	// what the harness itself knows about the bytes CBC decryption yields / the tag's authenticity:
+	// AES-KW authenticates the wrapped key under the key only; the AEADs bind key, nonce, tag and
+	// associated data as well
+	c.Auth = bytes.Equal(ct, origCT) && bytes.Equal(key, origKey)
+	if fam != "aeskw" {
+		c.Auth = c.Auth && bytes.Equal(tag, origTag) && bytes.Equal(nonce, origNonce) && bytes.Equal(ad, origAD)
+	}
 	switch fam {
 	case "aescbc", "aescbc-nopad":
 		c.Dec = hex.EncodeToString(cbcDecryptRaw(key, nonce, ct))
